@@ -12,16 +12,34 @@
 (* Graph(P) computes the tables once; every other operator takes the       *)
 (* resulting record G (TLC evaluates a LET-bound G a single time).         *)
 (***************************************************************************)
-EXTENDS Teal
+EXTENDS Teal, TLC
 
 (* first instructions of blocks: line 1, every label, every instruction    *)
 (* following a block-ending instruction                                    *)
 Leaders(P) == {1} \cup { i \in 2..Len(P) : P[i].op = "label" \/ P[i-1].op \in BlockEndOps }
 
-RECURSIVE ReachFrom(_, _, _)
-ReachFrom(succ, S, n) ==
-    LET T == S \cup UNION { SeqToSet(succ[b]) : b \in S }
-    IN  IF T = S \/ n = 0 THEN S ELSE ReachFrom(succ, T, n - 1)
+(* blocks reachable from each block (reflexive-transitive closure of succ) by repeated         *)
+(* doubling: r1 = one step, r2 = two steps, ... r64; not recursive, see the note in Teal.tla   *)
+ReachTable(ids, succ) ==
+    LET r1  == TLCEval([b \in ids |-> {b} \cup SeqToSet(succ[b])])
+        Dbl(r) == TLCEval([b \in ids |-> UNION { r[t] : t \in r[b] }])      \* TLCEval: tabulate, do not recompute
+        r2  == Dbl(r1)
+        r4  == Dbl(r2)
+        r8  == Dbl(r4)
+        r16 == Dbl(r8)
+        r32 == Dbl(r16)
+    IN  Dbl(r32)
+
+(* the same for a step function that yields sets *)
+ReachSets(ids, step) ==
+    LET r1  == TLCEval([b \in ids |-> {b} \cup (step[b] \cap ids)])
+        Dbl(r) == TLCEval([b \in ids |-> UNION { r[t] : t \in r[b] }])
+        r2  == Dbl(r1)
+        r4  == Dbl(r2)
+        r8  == Dbl(r4)
+        r16 == Dbl(r8)
+        r32 == Dbl(r16)
+    IN  Dbl(r32)
 
 Graph(P) ==
     LET starts == SortedSeq(Leaders(P))            \* starts[b+1] = first position of block b
@@ -42,7 +60,7 @@ Graph(P) ==
                      IN  DedupSeq(fall \o jmps)]
         subNames == CallTargets(P)
         subEntry == [nm \in subNames |-> blockOf[LabelPos(P, nm)]]
-        reach    == [b \in ids |-> ReachFrom(succ, {b}, nb)]
+        reach    == ReachTable(ids, succ)
         subBlocks == [nm \in subNames |-> reach[subEntry[nm]]]
         mainBlocks == reach[0]
         (* retained = reachable from the entry or from the target of ANY   *)
